@@ -474,7 +474,10 @@ ObjBuild(es, i, acc, input, env) ==
 ReduceR(src, i, s, upd, K) ==
   IF i > Len(src.out) THEN (IF src.end.k = "ok" THEN R1(s) ELSE R(<<>>, src.end))
   ELSE LET r == Eval(upd, s, BindVar(K.env, K.x, src.out[i]))
-       IN IF r.end.k # "ok" THEN R(<<>>, r.end)
+       \* jq streams: an UPDATE error on an early item wins over a later SOURCE error (jq 1.6:
+       \* `reduce (1, error("src")) as $y (0; error("upd"))` -> upd); the implementation evaluates
+       \* SOURCE to completion first and reports src.  No 1.7.1 recording pins it => skip.
+       IN IF r.end.k # "ok" THEN (IF src.end.k # "ok" THEN RSkip ELSE R(<<>>, r.end))
           ELSE ReduceR(src, i + 1, IF r.out = <<>> THEN Null ELSE r.out[Len(r.out)], upd, K)
 
 \* foreach: K carries x, env, upd, ext (has = TRUE when an extract expression is given)
